@@ -416,7 +416,7 @@ def run_property(a, prop, scratch, t0):
                     o.detail += ' || bounded native sweep found no disagreement (%s): still undecided' % w.get('witness_search', '')
     # ---- verdict -----------------------------------------------------------------------------------------------
     known = load_known()
-    violations, undecided, kf_lines = [], [], []
+    violations, undecided, kf_lines, not_explored = [], [], [], []
     for o in obls:
         if o.status == 'failed':
             k = match_known(o, known, prop)
@@ -426,7 +426,19 @@ def run_property(a, prop, scratch, t0):
             else:
                 violations.append(o)
         elif o.status == 'undecided':
-            undecided.append(o)
+            if o.engine == 'kani' and re.match(r'(kani/cbmc timeout|cbmc out of memory)', o.detail or ''):
+                not_explored.append(o)     # a resource limit of this machine/run, not a statement about the code
+            else:
+                undecided.append(o)
+    # Resource limits (cbmc timeout / memory cap) say nothing about the code: the harness is reported as NOT-EXPLORED, listed in the
+    # evidence and left out of the obligation counts; it does not change the exit code - unless most Kani obligations of this run were
+    # hit, which means the run itself is unusable (exit 2).
+    n_kani = sum(1 for o in obls if o.engine == 'kani')
+    for o in not_explored:
+        print('NOT-EXPLORED property=%s obligation=%s: %s' % (prop, o.id, o.detail))
+    if not_explored and 2 * len(not_explored) > n_kani:
+        undecided.extend(not_explored)
+        not_explored = []
     # open findings whose obligation no longer fails are simply not printed (stale entries suppress nothing)
     for l in kf_lines:
         print(l)
@@ -446,11 +458,11 @@ def run_property(a, prop, scratch, t0):
             print('UNDECIDED property=%s obligation=%s: %s' % (prop, o.id, o.detail[:400].replace('\n', ' | ')))
         rc = 2
     if not a.only and not os.environ.get('VERIF_NO_EVIDENCE'):
-        write_evidence(prop, a, obls, meta, violations, undecided, kf_lines, time.time() - t0, pl)
+        write_evidence(prop, a, obls, meta, violations, undecided, kf_lines, time.time() - t0, pl, not_explored)
     n_proof = [o for o in obls if o.bound is None]
-    print('%s tier=%s: %d obligations (%d unbounded, %d bounded), %d discharged, %d failed (%d known), %d undecided, %.1fs' % (
+    print('%s tier=%s: %d obligations (%d unbounded, %d bounded), %d discharged, %d failed (%d known), %d undecided, %d not explored, %.1fs' % (
         prop, a.tier, len(obls), len(n_proof), len(obls) - len(n_proof), sum(o.status == 'discharged' for o in obls),
-        sum(o.status == 'failed' for o in obls), len(kf_lines), len(undecided), time.time() - t0))
+        sum(o.status == 'failed' for o in obls), len(kf_lines), len(undecided), len(not_explored), time.time() - t0))
     return rc
 
 
@@ -494,9 +506,9 @@ def self_test(prop, snap, scratch, pl):
     return out
 
 
-def write_evidence(prop, a, obls, meta, violations, undecided, kf_lines, wall, pl):
+def write_evidence(prop, a, obls, meta, violations, undecided, kf_lines, wall, pl, not_explored=()):
     import plan
-    proof_obls = [o for o in obls if o.bound is None and not o.known]
+    proof_obls = [o for o in obls if o.bound is None and not o.known and o not in not_explored]
     bounded = [o for o in obls if o.bound is not None]
     backends = {}
     for o in obls:
@@ -533,6 +545,8 @@ def write_evidence(prop, a, obls, meta, violations, undecided, kf_lines, wall, p
             'must_fail_twins': {'total': meta.get('twins_total', 0), 'rejected': meta.get('twins_rejected', 0)},
             'known_findings_open': kf_lines,
             'undecided': [o.id for o in undecided],
+            'not_explored': [{'obligation': o.id, 'reason': o.detail} for o in not_explored],
+            'not_explored_note': 'harnesses that hit the cbmc time / memory cap in this run: nothing is claimed for them, they are not counted in obligations/discharged',
             'kani': meta.get('kani', {}),
             'self_test_seeded_changes': meta.get('self_test', []),
             'exhaustive': False,
